@@ -290,7 +290,38 @@ include!("/verif/harness/segs_faand.rs");
 /// Environment stand-in for the BLAKE3 commitment check inside cut segments: an arbitrary
 /// verdict per call (the hash itself is not the subject; DESIGN §2 item 2).
 fn env_open_commitment(_c: &Commitment, _v: &[u8]) -> bool {
-    kani::any()
+    let v: bool = kani::any();
+    unsafe {
+        if ENV_OPEN_N < 4 {
+            ENV_OPEN_LOG[ENV_OPEN_N] = v;
+        }
+        ENV_OPEN_N += 1;
+    }
+    v
+}
+
+/// Log of the verdicts env_open_commitment handed out (in call order).
+static mut ENV_OPEN_LOG: [bool; 4] = [false; 4];
+static mut ENV_OPEN_N: usize = 0;
+
+fn open_log_reset() {
+    unsafe {
+        ENV_OPEN_N = 0;
+    }
+}
+
+fn open_log_all_true() -> bool {
+    unsafe {
+        let mut ok = true;
+        let mut k = 0;
+        while k < 4 {
+            if k < ENV_OPEN_N {
+                ok &= ENV_OPEN_LOG[k];
+            }
+            k += 1;
+        }
+        ok
+    }
 }
 
 fn sh2(bit: bool, m0: u128, k0: u128, m1: u128, k1: u128) -> Share {
@@ -549,12 +580,17 @@ fn c04_fashare_3d_n2() {
     let di_bi_k = vec![vec![], vec![opened[0], opened[1]]];
     let z = Commitment([0u8; 32]);
     let comm = vec![vec![(z, z, z), (z, z, z)], vec![(z, z, z), (z, z, z)]];
+    open_log_reset();
     let r = seg_fashare_3d(0, 2, dm_k, di_bi_k, comm);
     let ok = r.is_ok();
     kani::cover!(ok, "fashare3d_ok_reachable");
     kani::cover!(!ok, "fashare3d_err_reachable");
     if ok {
         assert!(mac_of(&own[0]) == opened[0] && mac_of(&own[1]) == opened[1], "C04:fashare3d:Ok-implies-xor-of-MACs==opened-key-sum");
+        // per check object: c0 is tried first, c1 only if c0 did not open; the last verdict
+        // asked for each object must be `true`
+        let n = unsafe { ENV_OPEN_N };
+        assert!(n >= 2 && n <= 4 && unsafe { ENV_OPEN_LOG[n - 1] }, "C04:fashare3d:Ok-implies-one-of-the-two-commitments-opened");
     }
     std::mem::forget(r);
 }
@@ -562,10 +598,7 @@ fn c04_fashare_3d_n2() {
 /// C04 - verified broadcast (Goldwasser-Lindell echo), n = 3, own index 0: Ok implies that every
 /// other party echoed, for the third party, exactly the hash this party computed from what it
 /// received itself (InconsistentBroadcast / EmptyVector otherwise).
-#[kani::proof]
-#[kani::unwind(6)]
-#[kani::stub(std::fmt::format, no_format)]
-fn c04_bcast_verify_tail_n3() {
+fn bcast_verify_tail_n3(prop_own: u8) {
     let h: [u128; 3] = [0, kani::any(), kani::any()];
     let o = |b: bool| -> Option<u128> { if b { Some(kani::any()) } else { None } };
     // received_vecs[k][j]: what party k says it received from party j
@@ -576,11 +609,25 @@ fn c04_bcast_verify_tail_n3() {
     kani::cover!(ok, "bcast_ok_reachable");
     kani::cover!(!ok, "bcast_err_reachable");
     if ok {
-        assert!(r1[2] == Some(h[2]), "C04:broadcast:party-1-echo-of-party-2==own-view");
-        assert!(r2[1] == Some(h[1]), "C04:broadcast:party-2-echo-of-party-1==own-view");
+        pa!(prop_own, 4, r1[2] == Some(h[2]), "C04:broadcast:party-1-echo-of-party-2==own-view");
+        pa!(prop_own, 4, r2[1] == Some(h[1]), "C04:broadcast:party-2-echo-of-party-1==own-view");
+        pa!(prop_own, 3, r1[2] == Some(h[2]) && r2[1] == Some(h[1]), "C03:broadcast:a-value-announced-differently-to-different-parties-is-detected");
     }
     std::mem::forget(r);
 }
+
+macro_rules! bcast_verify_variant {
+    ($name:ident, $own:expr) => {
+        #[kani::proof]
+        #[kani::unwind(6)]
+        #[kani::stub(std::fmt::format, no_format)]
+        fn $name() {
+            bcast_verify_tail_n3($own);
+        }
+    };
+}
+bcast_verify_variant!(c04_bcast_verify_tail_n3, 4);
+bcast_verify_variant!(c04_bcast_verify_tail_n3__c03, 3);
 
 /// C04 - leaky AND, final check (n = 2, own index 0, two triples): Ok implies the XOR of all
 /// parties' H values is zero for every triple (LaANDXorNotZero otherwise) and every opening
@@ -593,12 +640,14 @@ fn c04_flaand_tail_n2() {
     let peer: [u128; 2] = [kani::any(), kani::any()];
     let z = Commitment([0u8; 32]);
     let zs = || Share(kani::any(), Auth(vec![(Mac(0), Key(0)), (Mac(0), Key(0))]));
+    open_log_reset();
     let r = seg_flaand_tail(0, 2, 2, vec![own[0], own[1]], vec![vec![], vec![peer[0], peer[1]]], vec![vec![], vec![z, z]], vec![zs(), zs()]);
     let ok = r.is_ok();
     kani::cover!(ok, "flaand_ok_reachable");
     kani::cover!(!ok, "flaand_err_reachable");
     if ok {
         assert!(own[0] ^ peer[0] == 0 && own[1] ^ peer[1] == 0, "C04:flaand:Ok-implies-xor-of-all-H==0");
+        assert!(open_log_all_true() && unsafe { ENV_OPEN_N } == 2, "C04:flaand:Ok-implies-every-H-opened-its-commitment");
     }
     std::mem::forget(r);
 }
@@ -636,4 +685,77 @@ fn c04_fabitn_check_n2() {
         }
     }
     std::mem::forget(res);
+}
+
+/// C02/C04 (n = 3) - d-value opening with two peers, one bucket of two triples (one d-value):
+/// Ok(d) implies both peers opened exactly one d-bit with one MAC that verifies; d == own^p1^p2.
+#[kani::proof]
+#[kani::unwind(6)]
+#[kani::stub(std::fmt::format, no_format)]
+fn c04_check_dvalue_tail_n3_b2() {
+    let delta = Delta(kani::any());
+    let s3 = |b: bool, k1: u128, k2: u128| Share(b, Auth(vec![(Mac(0), Key(0)), (Mac(kani::any()), Key(k1)), (Mac(kani::any()), Key(k2))]));
+    let yb: [bool; 2] = [kani::any(), kani::any()];
+    let yk1: [u128; 2] = [kani::any(), kani::any()];
+    let yk2: [u128; 2] = [kani::any(), kani::any()];
+    let ys = [s3(yb[0], yk1[0], yk2[0]), s3(yb[1], yk1[1], yk2[1])];
+    let xs = [s3(kani::any(), 0, 0), s3(kani::any(), 0, 0)];
+    let zs = [s3(kani::any(), 0, 0), s3(kani::any(), 0, 0)];
+    let bucket: Bucket = vec![(&xs[0], &ys[0], &zs[0]), (&xs[1], &ys[1], &zs[1])];
+    let buckets = [bucket];
+    let own_d = yb[0] ^ yb[1];
+    let mk_peer = || -> (Vec<bool>, Vec<Mac>, usize, usize, bool, u128) {
+        let d: bool = kani::any();
+        let m: u128 = kani::any();
+        let dl: u8 = kani::any();
+        let ml: u8 = kani::any();
+        let dv = match dl { 0 => vec![], 1 => vec![d], _ => vec![d, kani::any()] };
+        let mv = match ml { 0 => vec![], 1 => vec![Mac(m)], _ => vec![Mac(m), Mac(kani::any())] };
+        let (a, b) = (dv.len(), mv.len());
+        (dv, mv, a, b, d, m)
+    };
+    let (d1, m1, d1l, m1l, d1b, m1v) = mk_peer();
+    let (d2, m2, d2l, m2l, d2b, m2v) = mk_peer();
+    let r = seg_check_dvalue_tail(delta, 0, 3, &buckets, vec![vec![own_d]], 1, vec![vec![], vec![(d1, m1)], vec![(d2, m2)]]);
+    let ok = r.is_ok();
+    kani::cover!(ok, "dvalue_n3_ok_reachable");
+    kani::cover!(!ok, "dvalue_n3_err_reachable");
+    if let Ok(d) = &r {
+        assert!(d1l == 1 && m1l == 1 && d2l == 1 && m2l == 1, "C02:dvalue-n3:wrong-length-opening-not-accepted");
+        if d1l == 1 && m1l == 1 && d2l == 1 && m2l == 1 {
+            assert!(m1v == yk1[0] ^ yk1[1] ^ (if d1b { delta.0 } else { 0 }), "C04:dvalue-n3:MAC-of-peer-1-verified");
+            assert!(m2v == yk2[0] ^ yk2[1] ^ (if d2b { delta.0 } else { 0 }), "C04:dvalue-n3:MAC-of-peer-2-verified");
+            assert!(d.len() == 1 && d[0].len() == 1 && d[0][0] == (own_d ^ d1b ^ d2b), "C10:dvalue-n3:d==xor-of-all-openings");
+        }
+    }
+    std::mem::forget(r);
+    std::mem::forget(buckets);
+    std::mem::forget((xs, ys, zs));
+}
+
+/// C04 - coin tossing (shared_rng, n = 2, own index 0): Ok implies the peer's decommitment was
+/// accepted by the commitment check, and the seed is own ^ peer contribution.
+#[kani::proof]
+#[kani::unwind(36)]
+#[kani::stub(std::fmt::format, no_format)]
+fn c04_shared_rng_open_n2() {
+    let own: [u8; 32] = kani::any();
+    let peer: [u8; 32] = kani::any();
+    let z = Commitment([0u8; 32]);
+    open_log_reset();
+    let r = seg_shared_rng_open(0, 2, own, vec![vec![], peer.to_vec()], vec![vec![], vec![z]]);
+    let ok = r.is_ok();
+    kani::cover!(ok, "rng_open_ok_reachable");
+    kani::cover!(!ok, "rng_open_err_reachable");
+    if let Ok(seed) = &r {
+        assert!(open_log_all_true() && unsafe { ENV_OPEN_N } == 1, "C04:coin-toss:Ok-implies-peer-decommitment-opened");
+        let mut good = true;
+        let mut b = 0;
+        while b < 32 {
+            good &= seed[b] == own[b] ^ peer[b];
+            b += 1;
+        }
+        assert!(good, "C10:coin-toss:seed==xor-of-all-contributions");
+    }
+    std::mem::forget(r);
 }
